@@ -35,9 +35,11 @@
     / tagged NO.
 
     Two DBManagers (two processes) on one directory share the SQLite file:
-    both act on the same [store]; a manager contributes nothing but the handle
-    cache, so threads of either manager are threads of this model.  Store
-    initialisation by a second manager (F19) is not modelled here.
+    both act on the same [store]; a manager contributes the handle cache and
+    its cacheMutex, which SERIALISES the first opens inside one manager — a
+    restriction of the schedules considered here, never an extension: the
+    theorems hold for all schedules, hence also without that mutex (two
+    managers, or a manager that opens stores outside its lock).
 
     No proofs in this file. *)
 From Coq Require Import String Ascii List Bool ZArith.
@@ -63,10 +65,17 @@ Definition aop_op (a : aop) : op :=
 Inductive prog :=
 | PDeliver (folder : str) (t : Z)
 | PAppend (folder : str) (flags : list str)
-| PAtomic (a : aop).
+| PAtomic (a : aop)
+(** FIRST CONTACT of a DBManager with the store (DBManager.GetUserDB on a handle
+    that is not cached yet; [tinit] = the clock of createDefaultMailboxes):
+    a delivery that has to open the store first, and an IMAP LOGIN *)
+| PFirstDeliver (folder : str) (t tinit : Z)
+| PLogin (tinit : Z).
 
 (** program counter + registers *)
 Inductive tstate :=
+| SCount                          (* SELECT COUNT( * ) FROM mailboxes, outside any transaction *)
+| SInitTx                         (* BEGIN IMMEDIATE; count again; five INSERTs; COMMIT *)
 | SLookup
 | SCreate
 | SRelookup
@@ -81,7 +90,23 @@ Inductive tstate :=
 Record thread := mkThread { t_prog : prog; t_st : tstate }.
 
 Definition start (p : prog) : thread :=
-  mkThread p (match p with PAtomic _ => SAtomic | _ => SLookup end).
+  mkThread p (match p with
+              | PAtomic _ => SAtomic
+              | PFirstDeliver _ _ _ | PLogin _ => SCount
+              | _ => SLookup
+              end).
+
+(** db.createDefaultMailboxes, the five rows of an empty table (rowids 1..5) *)
+Definition add_defaults (s : store) (t : Z) : store :=
+  mkStore [mkMbox 1 INBOX t 1; mkMbox 2 (S_ "Sent") t 1; mkMbox 3 (S_ "Drafts") t 1;
+           mkMbox 4 (S_ "Trash") t 1; mkMbox 5 SPAM t 1]
+          (links s) (next_msg s) (glog s)
+          (gused s ++ [(INBOX, t); (S_ "Sent", t); (S_ "Drafts", t); (S_ "Trash", t); (SPAM, t)])
+          (gser s).
+
+(** where a first-contact thread goes once the store is open *)
+Definition after_init (p : prog) : tstate :=
+  match p with PLogin _ => SRan ROk | _ => SLookup end.
 
 Definition prog_flags (p : prog) : list str :=
   match p with PAppend _ fl => fl | _ => [] end.
@@ -90,7 +115,21 @@ Definition prog_flags (p : prog) : list str :=
 Definition thread_step (s : store) (th : thread) : store * thread :=
   let p := t_prog th in
   match p, t_st th with
-  | PDeliver f t, SLookup =>
+  (* store initialisation (the schema statements are idempotent and not modelled;
+     state of the code: with fixes/c08-init-defaults-lock.patch, the count is
+     repeated under the write lock) *)
+  | (PFirstDeliver _ _ _ | PLogin _), SCount =>
+      match mboxes s with
+      | [] => (s, mkThread p SInitTx)
+      | _ :: _ => (s, mkThread p (after_init p))
+      end
+  | (PFirstDeliver _ _ ti | PLogin ti), SInitTx =>
+      match mboxes s with
+      | [] => (add_defaults s ti, mkThread p (after_init p))
+      | _ :: _ => (s, mkThread p (after_init p))
+      end
+  | PLogin _, _ => (s, th)
+  | (PDeliver f t | PFirstDeliver f t _), SLookup =>
       match find_name s f with
       | Some m => (s, mkThread p (SStore (mb_id m)))
       | None => (s, mkThread p SCreate)
@@ -100,12 +139,12 @@ Definition thread_step (s : store) (th : thread) : store * thread :=
       | Some m => (s, mkThread p (SStore (mb_id m)))
       | None => (s, mkThread p (SFail None))                 (* NO [TRYCREATE] *)
       end
-  | PDeliver f t, SCreate =>
+  | (PDeliver f t | PFirstDeliver f t _), SCreate =>
       match create_mailbox_row s f t with
       | Some (s', id) => (s', mkThread p (SStore id))
       | None => (s, mkThread p SRelookup)                    (* created by somebody else? *)
       end
-  | PDeliver f t, SRelookup =>
+  | (PDeliver f t | PFirstDeliver f t _), SRelookup =>
       match find_name s f with
       | Some m => (s, mkThread p (SStore (mb_id m)))
       | None => (s, mkThread p (SFail None))                 (* "failed to create mailbox" *)
@@ -302,3 +341,19 @@ Definition eval_gated (k : gated_case) : Z * Z * list Z * Z :=
   let v := mbox_view c f in
   ((if zlist_eqb rep o_rep && zlist_eqb tr o_tr && view_eqb v o_view then 1 else 0),
    0, rep, fst v).
+
+(** first-contact correspondence case: initial store has NO mailbox rows
+    ([empty_store]: the file may or may not exist / carry its schema), k
+    sessions, a micro schedule.  Result: reply codes, number of mailbox rows,
+    uid_next of INBOX, number of messages in INBOX, 1 iff their uids are
+    1..n without gap or repetition. *)
+Definition empty_store : store := mkStore [] [] 1 [] [] 1.
+
+Definition eval_first (k : list prog * list tid) : list Z * Z * Z * Z * Z :=
+  let '(ps, sch) := k in
+  let c := run_sched sch (init_cfg empty_store ps) in
+  let v := mbox_view c INBOX in
+  let uids := map fst (snd v) in
+  (map reply_code (c_threads c), Z.of_nat (length (mboxes (c_store c))), fst v,
+   Z.of_nat (length uids),
+   if zlist_eqb uids (map Z.of_nat (seq 1 (length uids))) then 1 else 0).
